@@ -180,6 +180,16 @@ T4 = {
  'C20-r4-1': ('rpc/server', 'TestDemoLargeRowFromFollower', 'PrepareServer caps inbound messages at 1 MiB', 'a clustered non-pushdown query with an unflat row between 1 and 4 MiB', 'strengthened', 'C20.k'),
 }
 
+# round 5 (six properties): /tmp/seedout5
+T5 = {
+ 'C03-r5-1': ('.', 'TestDemo1SortedFlushLargerThanSortBuffer', 'the sorted flush reads rows back with r.Read(row) instead of io.ReadFull', 'MaxMemoryRatio > 0, a sorted flush that spills to two or more sort files, a row straddling the 64 KiB reader buffer', 'strengthened', 'C03.j'),
+ 'C08-r5-1': ('planner', 'TestDemo1InSubQueryWithNullDim', 'the IN-subquery row callback skips rows whose dimension is missing', 'a sub-query returning a row without the dimension and outer rows lacking it too', 'strengthened', 'C08.k'),
+ 'C12-r5-1': ('.', 'TestDemoC12', 'the follower records a table offset before the entry is handed to the table', 'a re-follow (table created mid-stream) while an entry is in flight', 'initial', 'C12.a'),
+ 'C14-r5-1': ('.', 'TestDemo1ExpiredQuietKeyLeavesDisk', 'doWrite truncates only columns holding more periods than the retention window', 'a key that goes quiet while others keep the clock and the flushes going', 'strengthened', 'C14.h'),
+ 'C15-r5-1': ('.', 'TestDemoC15', 'doProcessFlush builds the new fileStore from the previous one (fs.fields) instead of rs.fields', 'ALTER adding a field on a running table, points for it, one or two flushes', 'strengthened', 'C15.j'),
+ 'C19-r5-1': ('web', 'TestDemoUnauthenticatedQueryGetsNoData', 'sqlQuery falls through to the query when authenticate already sent the OAuth redirect', 'OAuth configured, a caller that reads the body of the 307', 'initial', 'C19.b'),
+}
+
 # confirmed to break the property, but they also fail the baseline's stable TestServers subtests when the
 # server package is run alone in a private network namespace on an idle machine: not kept
 DROPPED = {'C04-1', 'C10-r2-2', 'C02-r4-1', 'C12-r4-1'}
@@ -191,12 +201,13 @@ def main():
     allT.update(T2)
     allT.update(T3)
     allT.update(T4)
+    allT.update(T5)
     for key, (ddir, pat, what, needs, status, rule) in sorted(allT.items()):
         if key in DROPPED:
             continue
         parts = key.split('-')
         prop, k = parts[0], parts[-1]
-        src = os.path.join('/tmp/seedout4' if 'r4' in parts else '/tmp/seedout3' if 'r3' in parts else ('/tmp/seedout2' if 'r2' in parts else SRC), prop)
+        src = os.path.join('/tmp/seedout5' if 'r5' in parts else '/tmp/seedout4' if 'r4' in parts else '/tmp/seedout3' if 'r3' in parts else ('/tmp/seedout2' if 'r2' in parts else SRC), prop)
         cj = os.path.join(src, 'confirm%s.json' % k)
         if not os.path.exists(cj):
             print('skip (no confirmation yet):', key)
